@@ -454,6 +454,44 @@ def int_truediv(x, y):
     return SymFloat(quot=(x, y))
 
 
+def _dyadic(v, kv):
+    """(num, k) with value == num / 2^k exactly, for exact-integer floats, dyadic floats and concrete finite floats"""
+    if isinstance(v, SymFloat):
+        if v.dy is not None:
+            return v.dy
+        if v.iz is not None:
+            return (v.iz, 0)
+        return None
+    if isinstance(v, float):
+        if v != v or v in (float('inf'), float('-inf')):
+            return None
+        n, d = v.as_integer_ratio()
+        k = d.bit_length() - 1
+        if k > 60 or abs(n) > TWO53:
+            return None
+        return (z3.IntVal(n), k)
+    if kv is not None and kv[0] == 'i':
+        return (kv[1], 0)       # an int operand that converts exactly (|n| <= 2^53 was established by _floatval)
+    return None
+
+
+def _mk_dyadic(num, k):
+    """the double for the exact value num / 2^k if that is representable (|num| <= 2^53), else the rounded one"""
+    if k == 0:
+        return _mkfloat_exact_int(num)
+    if z3.is_int_value(num):
+        n = num.as_long()
+        while k > 0 and n % 2 == 0:
+            n //= 2
+            k -= 1
+        if k == 0:
+            return _mkfloat_exact_int(z3.IntVal(n))
+        num = z3.IntVal(n)
+    if SymBool(z3.And(num <= TWO53, num >= -TWO53)):
+        return SymFloat(dy=(num, k))
+    return SymFloat(r=fl_of(z3.ToReal(num) / z3.RealVal(2 ** k)))
+
+
 def float_binop(op, a, b):
     """IEEE double op on two float-convertible operands.  Returns SymFloat."""
     if op == '/' and not is_floatlike(a) and not is_floatlike(b):
@@ -485,6 +523,27 @@ def float_binop(op, a, b):
             return SymFloat(iz=fdiv(x, y))
         if op == '%':
             return SymFloat(iz=x - y * fdiv(x, y))
+    da, db = _dyadic(a, ka), _dyadic(b, kb)
+    if da is not None and db is not None and (da[1] or db[1]) and op in ('+', '-', '*', '/', '//', '%'):
+        (x, i), (y, j) = da, db
+        if op in ('//', '%'):
+            # Python derives both from fmod, which is exact: q = floor(a / b), a % b = a - b q (sign of the divisor)
+            K = max(i, j)
+            xs, ys = x * (2 ** (K - i)), y * (2 ** (K - j))
+            q = fdiv(xs, ys)
+            if op == '//':
+                return _mkfloat_exact_int(z3.simplify(q))
+            return _mk_dyadic(z3.simplify(xs - ys * q), K)
+        if op in ('+', '-'):
+            K = max(i, j)
+            xs, ys = x * (2 ** (K - i)), y * (2 ** (K - j))
+            return _mk_dyadic(z3.simplify(xs + ys if op == '+' else xs - ys), K)
+        if op == '*':
+            if not (z3.is_int_value(x) or z3.is_int_value(y)):
+                e.stats['nonlinear'] += 1
+            return _mk_dyadic(z3.simplify(x * y), i + j)
+        # the quotient of two exactly known rationals, correctly rounded = the correctly rounded quotient of integers
+        return int_truediv(z3.simplify(x * (2 ** j)), z3.simplify(y * (2 ** i)))
     ra, rb = _real(ka), _real(kb)
     if op in ('+', '*') and (ra.hash(), ra.get_id()) > (rb.hash(), rb.get_id()):
         # IEEE + and * commute: build the same term for either operand order
@@ -793,7 +852,7 @@ class SymFloat(object):
     Real term (an fl application) is only built when arithmetic or a comparison needs it, because floor / ceil /
     trunc of such a quotient equal those of the exact rational whenever |x| < 2^53 (the rounding error
     |x/y| 2^-53 is below 1/|y|, the distance of a non-integral x/y from the nearest integer)."""
-    __slots__ = ('iz', '_r', 'quot')
+    __slots__ = ('iz', '_r', 'quot', 'dy')
     __is_sym__ = True
 
     def __getattr__(self, name):
@@ -801,10 +860,16 @@ class SymFloat(object):
             raise Unmodelled('float.%s on a symbolic float' % name)
         raise AttributeError(name)
 
-    def __init__(self, r=None, iz=None, quot=None):
+    def __init__(self, r=None, iz=None, quot=None, dy=None):
         self._r = r
         self.iz = iz
         self.quot = quot
+        # dy=(num, k): the value is EXACTLY the dyadic rational num / 2^k (k >= 1, |num| <= 2^53): sums, differences and
+        # products of such values are computed exactly while they stay representable, quotients are correctly rounded
+        # quotients of integers (see float_binop)
+        self.dy = dy
+        if dy is not None and r is None:
+            self._r = z3.ToReal(dy[0]) / z3.RealVal(2 ** dy[1])
 
     @property
     def r(self):
@@ -865,12 +930,16 @@ class SymFloat(object):
         return self._op('%', o, True)
 
     def __neg__(self):
+        if self.dy is not None:
+            return SymFloat(dy=(z3.simplify(-self.dy[0]), self.dy[1]))
         return SymFloat(iz=-self.iz) if self.iz is not None else SymFloat(r=-self.r)
 
     def __pos__(self):
         return self
 
     def __abs__(self):
+        if self.dy is not None:
+            return SymFloat(dy=(zabs(self.dy[0]), self.dy[1]))
         return SymFloat(iz=zabs(self.iz)) if self.iz is not None else SymFloat(r=zabs(self.r))
 
     def __pow__(self, o, mod=None):
@@ -879,6 +948,16 @@ class SymFloat(object):
             for _ in range(o):
                 r = self * r
             return r if o else 1.0
+        if isinstance(o, (float, SymFloat)) or (isinstance(o, int) and not isinstance(o, bool)):
+            # positive base ** real exponent: a transcendental value, uninterpreted but positive (x**y = exp(y ln x) > 0)
+            from .models import uf_real, _realarg, _log_math_call
+            rb, ro = self.real(), _realarg(o, 'pow')
+            if SymBool(rb > 0):
+                _log_math_call('pow', [rb, ro])
+                g = uf_real('pow', rb, ro)
+                E.cur().add(g > 0)
+                return SymFloat(r=g)
+            raise Unmodelled('non-positive float ** real exponent')
         raise Unmodelled('float ** value')
 
     def __rpow__(self, o, mod=None):
@@ -907,6 +986,8 @@ class SymFloat(object):
     def __floor__(self):
         if self.iz is not None:
             return mkint(self.iz)
+        if self.dy is not None:
+            return mkint(fdiv(self.dy[0], z3.IntVal(2 ** self.dy[1])))
         q = self._exact_quot()
         if q is not None:
             return mkint(fdiv(q[0], q[1]))
@@ -915,6 +996,8 @@ class SymFloat(object):
     def __ceil__(self):
         if self.iz is not None:
             return mkint(self.iz)
+        if self.dy is not None:
+            return mkint(-fdiv(-self.dy[0], z3.IntVal(2 ** self.dy[1])))
         q = self._exact_quot()
         if q is not None:
             return mkint(-fdiv(-q[0], q[1]))
@@ -923,6 +1006,9 @@ class SymFloat(object):
     def __trunc__(self):
         if self.iz is not None:
             return mkint(self.iz)
+        if self.dy is not None:
+            n, d = self.dy[0], z3.IntVal(2 ** self.dy[1])
+            return mkint(z3.simplify(z3.If(n < 0, -fdiv(-n, d), fdiv(n, d))))
         q = self._exact_quot()
         if q is not None:
             fl_, ce = fdiv(q[0], q[1]), -fdiv(-q[0], q[1])
@@ -951,6 +1037,23 @@ class SymFloat(object):
                 return self
             res = SymInt(self.iz).__round__(nd)
             return _mkfloat_exact_int(zint(res))
+        if self.dy is not None:
+            # float.__round__(ndigits) rounds the EXACT binary value half-to-even in decimal and converts the decimal
+            # back correctly rounded: q = rhe(num * 10^nd / 2^k), result = the double nearest to q / 10^nd
+            if isinstance(nd, (SymInt, SymBool)):
+                nd = concretize_int(nd, -30, 30, 'round digits')
+            num, k = self.dy
+            if nd >= 0:
+                a, b = num * (10 ** nd), z3.IntVal(2 ** k)
+            else:
+                a, b = num, z3.IntVal(2 ** k * 10 ** (-nd))
+            fl = fdiv(a, b)
+            rem2 = 2 * (a - b * fl)                  # twice the remainder, compared with b
+            up = z3.Or(rem2 > b, z3.And(rem2 == b, fl - 2 * fdiv(fl, z3.IntVal(2)) == 1))
+            q = z3.simplify(z3.If(up, fl + 1, fl))
+            if nd >= 0:
+                return int_truediv(q, z3.IntVal(10 ** nd))
+            return _mkfloat_exact_int(z3.simplify(q * (10 ** (-nd))))
         raise Unmodelled('round(float, digits)')
 
 
